@@ -2,6 +2,8 @@ package main
 
 import (
 	"fmt"
+	"go/ast"
+	"go/constant"
 	"go/token"
 	"sort"
 	"strings"
@@ -101,6 +103,7 @@ func boundsRuleK(p *Program, r *Report, rule string, files []string, confirmed m
 func runC14(p *Program, r *Report) {
 	r.Rule("R14.1", "E1", 40, "guarded bounds: in the input-facing decoders every slice bound, index and allocation size that derives from a length field of the input, from a subtraction, or from a lossy integer conversion is proven in range (0 <= low <= high <= len, 0 <= i < len, 0 <= n) from the branch conditions that dominate the use")
 	boundsRuleK(p, r, "R14.1", c14Files, r141Confirmed, true)
+	ruleR141WitnessEmail(p, r)
 	r.Rule("R14.3", "E1", 4, "bounded allocation: every make / Buffer.Grow / io.CopyN in the decoders whose size derives from a length field of the input has a finite upper bound that the sender does not control alone: a constant, the length of data already held, or the Len() of the reader it is read from")
 	ruleR143(p, r)
 	r.Rule("R14.4", "E3", 3, "connection isolation: every goroutine that AcraServer starts to serve a client connection runs a function whose first deferred call is recoverConnection (a panic in a decoder ends that connection, not the process)")
@@ -109,6 +112,8 @@ func runC14(p *Program, r *Report) {
 	ruleR145(p, r)
 	r.Rule("R14.6", "E3", 3, "decoder state hygiene: every exit of hmac.Processor.OnColumn (re)defines the armed hash, so no later column dereferences a cleared matchedHash")
 	ruleHmacProcessorState(p, r, "R14.6")
+	r.Rule("R14.7", "E3", 5, "a hash prefix that may be absent is tested before use: every method call on the result of hmac.ExtractHash / ExtractHashAndData (nil when the data does not start with a known hash id or is too short) is dominated by the non-nil edge of a nil test of that result (sibling contradiction rule: most call sites test it)")
+	ruleR147(p, r)
 	_ = strings.Contains
 	_ = ssa.Value(nil)
 }
@@ -368,5 +373,128 @@ func init() {
 	mut("C14", "connection goroutine without panic recovery", "cmd/acra-server/common/listener.go", "		defer recoverConnection(sessionLogger.WithField(\"function\", \"ProxyDatabaseConnection\"), sessionCloseToCloser(clientSession.Close))\n", "", "R14.4", "handleClientSession")
 	mut("C14", "column definition tail check removed (original defect)", "decryptor/mysql/column_field.go", "	if len(packet.data) < pos+13 {\n		return nil, base.ErrMalformPacket\n	}\n", "", "R14.1", "ParseResultField")
 	mut("C14", "GetSimpleQuery slices before checking", "decryptor/postgresql/packet_handler.go", "	if packet.dataLength < 1 || packet.dataLength > len(data) {", "	if packet.dataLength > len(data) {", "R14.1", "GetSimpleQuery")
+	mut("C14", "HTTP decryptSearchable without the nil-hash test (original defect)", "cmd/acra-translator/http_api/service.go", "	hash := hmac.ExtractHash(request.Data)\n	if hash == nil {\n		logger.WithField(\"content_type\", ctx.ContentType()).Errorln(\"Invalid hash\")\n		httpErr = NewHTTPError(http.StatusBadRequest, \"Invalid request data\")\n		return\n	}\n	hashData := hash.Marshal()\n	acraStruct := request.Data[len(hashData):]\n	decryptedData, err := service.service.DecryptSearchable(", "	hash := hmac.ExtractHash(request.Data)\n	hashData := hash.Marshal()\n	acraStruct := request.Data[len(hashData):]\n	decryptedData, err := service.service.DecryptSearchable(", "R14.7", "_decryptSearchable")
 	mut("C14", "decoder panics on unknown tag", "hmac/hash.go", "		logrus.Debugln(\"Unknown hash function\")\n		return nil", "		panic(\"unknown hash function\")", "R14.5", "ExtractHash")
+}
+
+// ruleR141WitnessEmail keeps the reason behind the confirmed randomEmail entries true: the TLD tables must fit the
+// two length thresholds the function branches on.
+func ruleR141WitnessEmail(p *Program, r *Report) {
+	pk := p.Pkg("pseudonymization")
+	fn := p.Func("pseudonymization.randomEmail")
+	if pk == nil || fn == nil || fn.Blocks == nil {
+		r.Anchor("R14.1", "pseudonymization.randomEmail")
+		return
+	}
+	maxLen := map[string]int{}
+	for _, f := range pk.Syntax {
+		ast.Inspect(f, func(n ast.Node) bool {
+			vs, ok := n.(*ast.ValueSpec)
+			if !ok {
+				return true
+			}
+			for i, name := range vs.Names {
+				if (name.Name != "genericTLDs" && name.Name != "ccTLDs") || i >= len(vs.Values) {
+					continue
+				}
+				cl, ok := vs.Values[i].(*ast.CompositeLit)
+				if !ok {
+					maxLen[name.Name] = 1 << 20 // not a literal: unknown, assume the worst
+					continue
+				}
+				for _, e := range cl.Elts {
+					tv, ok := pk.TypesInfo.Types[e]
+					if !ok || tv.Value == nil || tv.Value.Kind() != constant.String {
+						maxLen[name.Name] = 1 << 20
+						continue
+					}
+					if l := len(constant.StringVal(tv.Value)); l > maxLen[name.Name] {
+						maxLen[name.Name] = l
+					}
+				}
+			}
+			return true
+		})
+	}
+	buf := paramByName(fn, "buf")
+	var guards []int64
+	for _, b := range fn.Blocks {
+		for _, in := range b.Instrs {
+			bo, ok := in.(*ssa.BinOp)
+			if !ok || bo.Op != token.LSS {
+				continue
+			}
+			if op, isLen := isLenCall(bo.X); isLen && op == ssa.Value(buf) {
+				if c, ok := intConst(bo.Y); ok {
+					guards = append(guards, c)
+				}
+			}
+		}
+	}
+	sort.Slice(guards, func(i, j int) bool { return guards[i] < guards[j] })
+	mcc, mgen := maxLen["ccTLDs"], maxLen["genericTLDs"]
+	mall := mcc
+	if mgen > mall {
+		mall = mgen
+	}
+	ok := len(guards) >= 2 && mcc > 0 && mgen > 0 && int64(mcc) <= guards[0] && int64(mall) <= guards[len(guards)-1]
+	r.Check(ok, "R14.1", fnName(fn), "TLD tables fit the length thresholds", p.Pos(fn.Pos()), fmt.Sprintf("longest country TLD %d <= %v, longest TLD %d <= upper threshold", mcc, guards, mall), fmt.Sprintf("the e-mail generator subtracts len(tld) from len(buf) relying on thresholds %v, but the TLD tables hold entries of up to %d (country) / %d (all) bytes: for a value just above a threshold the difference is negative and the slice panics", guards, mcc, mall))
+}
+
+func ruleR147(p *Program, r *Report) {
+	eh := p.FuncObj("hmac.ExtractHash")
+	ehd := p.FuncObj("hmac.ExtractHashAndData")
+	if eh == nil || ehd == nil {
+		r.Anchor("R14.7", "hmac.ExtractHash / ExtractHashAndData")
+		return
+	}
+	for _, fn := range p.srcFns {
+		for _, cs := range callsIn(fn) {
+			if cs.Callee != eh && cs.Callee != ehd {
+				continue
+			}
+			var hv ssa.Value = cs.Instr.Value()
+			if cs.Callee == ehd {
+				hv = extractOf(cs.Instr.Value(), 0)
+			}
+			if hv == nil {
+				continue
+			}
+			// values that carry the hash: hv and phis/stores are not followed (kept simple: direct uses)
+			var uses []ssa.Instruction
+			if refs := hv.Referrers(); refs != nil {
+				for _, rf := range *refs {
+					if c, ok := rf.(ssa.CallInstruction); ok && c.Common().IsInvoke() && c.Common().Value == hv {
+						uses = append(uses, c.(ssa.Instruction))
+					}
+				}
+			}
+			if len(uses) == 0 {
+				continue
+			}
+			// non-nil regions
+			var nonNil []*ssa.BasicBlock
+			if refs := hv.Referrers(); refs != nil {
+				for _, rf := range *refs {
+					if bo, ok := rf.(*ssa.BinOp); ok {
+						for _, i := range ifsOn(bo) {
+							if _, nn, ok := nilBranches(i, hv); ok {
+								nonNil = append(nonNil, nn)
+							}
+						}
+					}
+				}
+			}
+			for _, u := range uses {
+				ok := false
+				for _, nn := range nonNil {
+					if nn.Dominates(u.Block()) {
+						ok = true
+					}
+				}
+				mname := u.(ssa.CallInstruction).Common().Method.Name()
+				r.Check(ok, "R14.7", fnName(fn), "hash."+mname+"() after nil test", p.Pos(u.Pos()), "dominated by the hash != nil edge", "the possibly-nil result of "+cs.Callee.Name()+" is used without a nil test: input that does not start with a hash prefix (or is shorter than 33 bytes) makes the handler panic with a nil dereference")
+			}
+		}
+	}
 }
